@@ -18,7 +18,7 @@ EXTENDS Naturals, Sequences, FiniteSets, TLC
 CONSTANTS StickyDecoder, DoubleSignal
 
 BadClasses == {"garbage", "nonjson", "wrongkind", "unknownid", "idtype", "giant", "blank", "comment",
-               "noresult", "both", "badutf8", "control-repeat", "truncated"}
+               "noresult", "both", "badutf8", "control-repeat", "truncated", "fieldtype"}
 Positions == {"before", "instead", "after"}
 
 VARIABLES bad, pos,        \* the scenario
@@ -43,7 +43,9 @@ Consume ==
         ELSE IF f = "ans2" THEN c2' = (IF c2 = "pending" THEN "ok" ELSE c2) /\ UNCHANGED <<c1, reader>>
         ELSE /\ reader' = IF StickyDecoder /\ Undecodable(bad) THEN "spinning"
                           ELSE IF DoubleSignal /\ bad = "control-repeat" THEN "crashed" ELSE "running"
-             /\ c1' \in {c1, IF c1 = "pending" THEN "err" ELSE c1}      \* may fail the call it arrives for, nothing else
+             \* may fail the call it arrives for, nothing else; an answer to that call with oddly typed fields
+             \* ("fieldtype") may also be accepted leniently - it is the call's own answer
+             /\ c1' \in {c1, IF c1 = "pending" THEN "err" ELSE c1} \cup (IF bad = "fieldtype" /\ c1 = "pending" THEN {"ok"} ELSE {})
              /\ UNCHANGED c2
   /\ UNCHANGED <<bad, pos, phase>>
 
